@@ -73,7 +73,10 @@ pub fn run_both(ctx: &mut Ctx, query: &str, input: &[u8]) -> RunCmp {
         None => (None, false),
     };
     let model = match &ast {
-        Some(a) => ctx.drv.ask(&format!("RUN\t{}\t{}", a, enc::hexb(input))),
+        Some(a) => {
+            let dates = if query.contains("parseDate") { date_table(input, query) } else { String::new() };
+            ctx.drv.ask(&format!("RUN\t{}\t{}\t{}", a, enc::hexb(input), dates))
+        }
         None => "NOAST".to_string(),
     };
     let impl_canon = if imp.compiled && imp.panicked.is_none() && !imp.hung {
@@ -233,4 +236,57 @@ pub fn record_lines(stdout: &[u8]) -> Option<Vec<Vec<(String, crate::canon::J)>>
         }
     }
     Some(v)
+}
+
+
+/// `parseDate` is an external function (dtparse) for the model: the harness supplies its value for
+/// every string that occurs in the input documents or as a literal in the query
+pub fn date_table(input: &[u8], query: &str) -> String {
+    fn leaves(j: &crate::canon::J, out: &mut Vec<String>) {
+        match j {
+            crate::canon::J::Str(s) => out.push(s.clone()),
+            crate::canon::J::Arr(v) => v.iter().for_each(|x| leaves(x, out)),
+            crate::canon::J::Obj(kvs) => kvs.iter().for_each(|kv| leaves(&kv.1, out)),
+            crate::canon::J::Int(i) => out.push(format!("{}", i)),
+            crate::canon::J::Float(f) => out.push(format!("{}", f)),
+            crate::canon::J::Bool(b) => out.push(format!("{}", b)),
+            crate::canon::J::Null => out.push("None".into()),
+        }
+    }
+    let mut strs: Vec<String> = vec![];
+    for l in String::from_utf8_lossy(input).lines().take(400) {
+        if let Ok(j) = crate::canon::parse(l) {
+            leaves(&j, &mut strs);
+        }
+    }
+    // string literals of the query
+    let mut cur = String::new();
+    let mut quote: Option<char> = None;
+    for c in query.chars() {
+        match quote {
+            Some(q) if c == q => {
+                strs.push(cur.clone());
+                cur.clear();
+                quote = None;
+            }
+            Some(_) => cur.push(c),
+            None if c == '"' || c == '\'' => quote = Some(c),
+            None => {}
+        }
+    }
+    strs.sort();
+    strs.dedup();
+    let mut out = vec![];
+    for s in strs.iter().take(300) {
+        let v = std::panic::catch_unwind(|| dtparse::parse(s)).ok().and_then(|r| r.ok());
+        let txt = match v {
+            Some((naive, _off)) => match naive.and_utc().timestamp_nanos_opt() {
+                Some(ns) => format!("{}", ns),
+                None => continue, // outside i64 nanoseconds: leave the string out (model answers "unmodelled")
+            },
+            None => "x".to_string(),
+        };
+        out.push(format!("S{}={}", enc::hex(s), txt));
+    }
+    out.join(" ")
 }
